@@ -7,5 +7,5 @@ rm -f *.ml *.mli *.cmi *.cmx *.o
 coqc -R /verif/coq Magog /verif/coq/Extract.v
 rm -f Extract.ml Extract.mli
 cp /verif/oracle/drv.ml .
-ocamlfind ocamlopt -w -a $(ocamlfind ocamldep -sort *.mli *.ml) -o oracle.new
+ocamlfind ocamlopt -package unix -linkpkg -w -a $(ocamlfind ocamldep -sort *.mli *.ml) -o oracle.new
 mv oracle.new oracle
